@@ -9,18 +9,18 @@ CFG = dict(
     assumptions=[
         "Unmarshal/UnmarshalStream into a zero Packet; the marshalled packet may have its read cursor anywhere in [0, Size()] (15 cursor states generated)",
         "well-formed packet (wf): id/job/flags in range, device id of 32 bytes with a non-zero first byte, at most 32768 non-zero 32-bit tags, payload shorter than 2^63 (stream form, wf_stream: at most MaxSlice = 2^42)",
-        "the underlying reader returns non-empty short reads (no_empty); a (0, nil) read is compared with the model in the differential run but is outside the theorems",
+        "the underlying reader returns non-empty short reads (no_empty) and ends with (0, EOF), with its last bytes + EOF, or with a failing Read; a (0, nil) read is compared with the model in the differential run but is outside the theorems",
         "flag theorems: ALL integers f as the word (no range needed), all 16-bit values 0 <= n < 65536",
     ],
-    level_text="38 theorems over the Gallina model of com.Packet Marshal/Unmarshal, MarshalStream/UnmarshalStream, Size and the com.Flag word, by induction, for ALL "
+    level_text="43 theorems over the Gallina model of com.Packet Marshal/Unmarshal, MarshalStream/UnmarshalStream, Size and the com.Flag word, by induction, for ALL "
                "well-formed packets and EVERY split of the byte stream into non-empty short reads: Marshal is total and has length 46 + length bytes + 4*tags + payload; "
                "Marshal rewinds and writes the whole buffer from EVERY read-cursor position of the payload Chunk (marshal (set_rpos k p) = marshal p; MarshalStream writes the unread part); "
                "Unmarshal over (Marshal p ++ rest) returns exactly p (rewound) and leaves exactly rest (exact consumption), hence concatenated packets parse one after another "
-               "(packets_concat, induction over the list), the encoding is prefix-free and a truncated wire encoding never yields a packet; round trip, exact consumption, concatenation and prefix-freeness also for the nested stream form through the flat Chunk reader and through "
+               "(packets_concat, induction over the list), the encoding is prefix-free and a truncated wire encoding never yields a packet; the same round trip for readers that deliver their last bytes together with io.EOF or fail after the packet (read-by-read simulation of the plain reader, wire and nested form); round trip, exact consumption, concatenation and prefix-freeness also for the nested stream form through the flat Chunk reader and through "
                "data.NewReader over short reads, whose two readers are proved to agree on every input including malformed ones; bit-level (Z.testbit) proofs that "
                "SetLen/SetPosition/SetGroup store their value, keep the other two 16-bit fields and change the low 16 bits only by setting FlagFrag, that Set/Unset of a "
                "16-bit mask never touch the fragment fields, and Clear's behaviour as coded (fields zero; frag bit cleared on a fragment word, SET on a word without it). "
-               "The model is tied to /repo by ~4200 generated cases per quick run (boundary grid of payload lengths 0,1,2,254..257,65534..65537,100000 x tag counts "
+               "The model is tied to /repo by ~4600 generated cases per quick run (plus ~2900 oracle-only evaluations, among them the real testing/iotest readers) (boundary grid of payload lengths 0,1,2,254..257,65534..65537,100000 x tag counts "
                "0,1,2,255,256, all chunkings, trailing data, concatenations, 15 read-cursor states each followed by a second packet, truncations at every offset, every class byte, forged 2^32/2^63 lengths, flag setters) "
                "run through the real functions and through the model inside Coq, plus the round-trip/independence oracle evaluated on the implementation.",
     level_note="Proof is about the model; the tie to the code is differential (its strength is that of the generator, distribution in the evidence). "
